@@ -4,7 +4,7 @@
 From Coq Require Import List ZArith NArith Bool Lia.
 From RecordUpdate Require Import RecordSet.
 From PC.Base Require Import Assoc.
-From PC.Sup Require Import Model Monitors Tactics Sim ObsFacts Effects RelCore LemC09 RelC09.
+From PC.Sup Require Import Model Monitors Tactics Sim ObsFacts Effects RelCore LemC09 LemC09b LemC09c RelC09.
 Import ListNotations RecordSetNotations.
 
 (* ---- association-list facts --------------------------------------------------------------------------- *)
@@ -99,11 +99,13 @@ Record P2 (s : sys) (i : iid) (x : inst) (xo : oinst) : Prop := mkP2 {
   p_launches : pre_pc (pc x) = true -> launches x = 0;
   p_notbegun : begun s i = false -> pre0_pc (pc x) = true;
   p_status : done_pc (pc x) = false -> begun s i = true -> okst (pc x) (st (vis_of s (nm x))) = true;
-  p_fresh : done_pc (pc x) = false -> begun s i = false -> o_byapi xo = false -> st (vis_of s (nm x)) = SPending }.
+  p_fresh : done_pc (pc x) = false -> begun s i = false -> o_byapi xo = false -> st (vis_of s (nm x)) = SPending;
+  (* created, Pending written, goroutine not yet begun: Pending is still reported *)
+  p_staged : done_pc (pc x) = false -> begun s i = false -> staged1 s i = true -> st (vis_of s (nm x)) = SPending }.
 
-Lemma P2_frame s s' i x x' xo xo' : msame s s' -> ifr x x' -> ofr xo xo' -> P2 s i x xo -> P2 s' i x' xo'.
+Lemma P2_frame s s' i x x' xo xo' : msame s s' -> stage_le s s' -> ifr x x' -> ofr xo xo' -> P2 s i x xo -> P2 s' i x' xo'.
 Proof.
-  intros M (Hn & _ & Hl & Hp & _) (_ & _ & _ & _ & Hes & Hed & Hb) [A B C D E F].
+  intros M SL (Hn & _ & Hl & Hp & _) (_ & _ & _ & _ & Hes & Hed & Hb) [A B C D E F G].
   constructor; rewrite ?Hp, ?Hl, ?Hn, ?Hes, ?Hed, ?Hb, ?(msame_begun _ _ _ M), ?(msame_st _ _ _ M); auto.
 Qed.
 
@@ -121,6 +123,28 @@ Lemma osame_inv o o' j x' : osame o o' -> get j (oi o') = Some x' -> exists x, g
 Proof.
   intros (C & _) H. specialize (C j). destruct (get j (oi o)) as [x|]; [|congruence].
   destruct C as (x2 & E2 & F). exists x. split; [reflexivity|]. congruence.
+Qed.
+
+(* well-formed configuration: process names are unique *)
+Fixpoint nodupN (l : list N) : bool :=
+  match l with [] => true | a :: r => negb (memN a r) && nodupN r end.
+Definition wf_confs (cs : amap pconf) : bool := nodupN (map fst cs).
+
+Lemma in_get_nodup {A} (m : amap A) k v : nodupN (map fst m) = true -> In (k, v) m -> get k m = Some v.
+Proof.
+  induction m as [|[k' v'] r IH]; cbn; [tauto|]. intros H Hin. apply andb_true_iff in H. destruct H as [H1 H2].
+  destruct (N.eqb_spec k' k) as [->|Hne].
+  - destruct Hin as [Hin|Hin]; [congruence|]. exfalso. apply negb_true_iff in H1.
+    assert (memN k (map fst r) = true); [|congruence]. apply memN_In. now apply (in_map fst) in Hin.
+  - destruct Hin as [Hin|Hin]; [congruence|]. auto.
+Qed.
+
+Lemma runnable_not_deferred s n : wf_confs (confs s) = true -> memN n (runnable_names s) = true ->
+  exists c, get n (confs s) = Some c /\ deferred c = false.
+Proof.
+  intros Hwf H. apply memN_In in H. unfold runnable_names in H. apply in_map_iff in H. destruct H as ([k c] & Hk & Hin).
+  cbn in Hk. subst k. apply filter_In in Hin. destruct Hin as [Hin Hd]. cbn in Hd. apply negb_true_iff in Hd.
+  exists c. split; [|exact Hd]. now apply in_get_nodup.
 Qed.
 
 Section RelC09b.
@@ -151,9 +175,9 @@ Definition asm (o : obs) (te : tid * event) : bool :=
       let x := oi_get o i in
       is_running_status (r_status (on_get o (o_nm x))) && o_alive x
       && negb (opt_eqb status_eqb (o_endst x) (Some STerminating))
-  | ENewInst i n => api_thread o (fst te) ||
-                    (forallb (fun y => negb (N.eqb (o_nm y) n)) (vals (oi o)) && negb (deferred (conf_of cs n)))
-  | EBegin i => status_eqb (r_status (on_get o (o_nm (oi_get o i)))) SPending
+  | ENewInst i n =>
+      (* Run()'s spawn loop creates only the first instance of a name *)
+      api_thread o (fst te) || forallb (fun y => negb (N.eqb (o_nm y) n)) (vals (oi o))
   | _ => true
   end.
 
@@ -182,22 +206,23 @@ Proof.
 Qed.
 Lemma begun_frame s s' : begun_has s -> msame s s' -> begun_has s'.
 Proof. intros B M i Hi. rewrite (msame_begun _ _ i M). apply B. eapply msame_none; eauto. Qed.
-Lemma IR2_frame s s' o o' : IR2 s o -> msame s s' -> osame o o' -> IR2 s' o'.
+Lemma IR2_frame s s' o o' : IR2 s o -> msame s s' -> stage_le s s' -> osame o o' -> IR2 s' o'.
 Proof.
-  intros H M O i x' xo' Hx Hxo.
+  intros H M SL O i x' xo' Hx Hxo.
   destruct (msame_inv _ _ _ _ M Hx) as (x & Ex & Fx). destruct (osame_inv _ _ _ _ O Hxo) as (xo & Exo & Fxo).
   eapply P2_frame; eauto.
 Qed.
 
-Lemma R2_frame s s' o o' : R1 cs s' o' -> R2 s o -> msame s s' -> osame o o' -> R2 s' o'.
+Lemma R2_frame s s' o o' : R1 cs s' o' -> R2 s o -> msame s s' -> stage_le s s' -> osame o o' -> R2 s' o'.
 Proof.
-  intros H1 [_ A B C D] M O. constructor; eauto using IR2_frame, uniq_frame, noinst_frame, begun_frame.
+  intros H1 [_ A B C D] M SL O. constructor; eauto using IR2_frame, uniq_frame, noinst_frame, begun_frame.
 Qed.
 
 Lemma P2_same s s' j y yo yo' : P2 s j y yo -> begun s' j = begun s j ->
   st (vis_of s' (nm y)) = st (vis_of s (nm y)) ->
-  o_ended yo' = o_ended yo -> o_endst yo' = o_endst yo -> o_byapi yo' = o_byapi yo -> P2 s' j y yo'.
-Proof. intros [A B C D E F] Hb Hs H1 H2 H3. constructor; rewrite ?Hb, ?Hs, ?H1, ?H2, ?H3; auto. Qed.
+  o_ended yo' = o_ended yo -> o_endst yo' = o_endst yo -> o_byapi yo' = o_byapi yo ->
+  (staged1 s' j = true -> staged1 s j = true) -> P2 s' j y yo'.
+Proof. intros [A B C D E F G] Hb Hs H1 H2 H3 H4. constructor; rewrite ?Hb, ?Hs, ?H1, ?H2, ?H3; auto. Qed.
 
 Lemma after_done p : after_pc p = true -> done_pc p = true.
 Proof. destruct p; cbn; try discriminate; auto. Qed.
@@ -206,20 +231,21 @@ Proof. destruct p; cbn; try discriminate; auto. Qed.
 Lemma R2_local s s' o o' i x x' :
   R2 s o -> R1 cs s' o' ->
   get i (insts s) = Some x -> get i (insts s') = Some x' -> (forall j, j <> i -> get j (insts s') = get j (insts s)) ->
-  thinst s' = thinst s -> (forall n, st (vis_of s' n) = st (vis_of s n)) -> nm x' = nm x ->
+  thinst s' = thinst s -> stage s' = stage s -> (forall n, st (vis_of s' n) = st (vis_of s n)) -> nm x' = nm x ->
   (done_pc (pc x) = true -> done_pc (pc x') = true) ->
   (forall j yo', get j (oi o') = Some yo' -> exists yo, get j (oi o) = Some yo /\
        (j <> i -> o_ended yo' = o_ended yo /\ o_endst yo' = o_endst yo /\ o_byapi yo' = o_byapi yo)) ->
   (forall xo xo', get i (oi o) = Some xo -> get i (oi o') = Some xo' -> P2 s i x xo -> P2 s' i x' xo') ->
   R2 s' o'.
 Proof.
-  intros [_ A U N B] H1 Hx Hx' Hfr Hth Hst Hnm Hdone Hobs Hi.
+  intros [_ A U N B] H1 Hx Hx' Hfr Hth Hsg Hst Hnm Hdone Hobs Hi.
   assert (Hbeg : forall j, begun s' j = begun s j) by (intros j; unfold begun; now rewrite Hth).
   constructor; auto.
   - intros j y yo' Hy Hyo. destruct (Hobs j yo' Hyo) as (yo & Eyo & Hsame).
     destruct (N.eqb_spec j i) as [->|Hne].
     + assert (y = x') by congruence. subst y. eapply Hi; eauto.
     + rewrite (Hfr j Hne) in Hy. destruct (Hsame Hne) as (E1 & E2 & E3). eapply P2_same; eauto.
+      unfold staged1. now rewrite Hsg.
   - intros j1 j2 y1 y2 Hy1 Hy2 Hn Hd1 Hd2.
     assert (Hback : forall j y, get j (insts s') = Some y -> done_pc (pc y) = false ->
                     exists y0, get j (insts s) = Some y0 /\ nm y0 = nm y /\ done_pc (pc y0) = false).
@@ -243,7 +269,7 @@ Lemma R2_own s o th e s' : R2 s o -> R1 cs s' (obs_step cs o (th, e)) -> step_ow
   R2 s' (obs_step cs o (th, e)).
 Proof.
   intros HR H1 Hk.
-  destruct (own_effect _ _ _ _ Hk) as (i & x & x' & Hth & Hx & Hx' & Hfr & Hti & _ & Hnm & _ & Htr & _ & _ & Hl & Hst & _).
+  destruct (own_effect _ _ _ _ Hk) as (i & x & x' & Hth & Hx & Hx' & Hfr & Hti & _ & Hnm & _ & Htr & _ & _ & Hl & Hst & _ & Hsg).
   assert (Hobs : forall j yo', get j (oi (obs_step cs o (th, e))) = Some yo' -> exists yo, get j (oi o) = Some yo /\
             o_ended yo' = o_ended yo /\ o_endst yo' = o_endst yo /\ o_byapi yo' = o_byapi yo).
   { intros j yo' Hyo. destruct (is_launch e) eqn:El.
@@ -257,9 +283,9 @@ Proof.
   eapply (R2_local s s' o _ i x x'); eauto.
   - intros Hd. eapply done_own; eauto.
   - intros j yo' Hyo. destruct (Hobs j yo' Hyo) as (yo & Eyo & E1 & E2 & E3). eauto.
-  - intros xo xo' Hxo Hxo' [A B C D E F]. destruct (Hobs i xo' Hxo') as (yo & Eyo & E1 & E2 & E3).
+  - intros xo xo' Hxo Hxo' [A B C D E F G]. destruct (Hobs i xo' Hxo') as (yo & Eyo & E1 & E2 & E3).
     assert (yo = xo) by congruence. subst yo.
-    constructor.
+    constructor; try (intros _ Hn; congruence).
     + intros He. rewrite E1 in He. eapply done_own; eauto.
     + intros s0 Hs0. rewrite E2 in Hs0. destruct (B s0 Hs0); [left|right; eapply endst_own]; eauto.
     + intros Hp. destruct (pre_own _ _ _ Htr Hp) as [Hp0 Hne]. rewrite Hl.
@@ -268,7 +294,6 @@ Proof.
     + intros Hd _. rewrite Hnm, Hst. eapply okst_own; eauto.
       * destruct (done_pc (pc x)) eqn:Edx; [rewrite (done_own _ _ _ Htr Edx) in Hd; discriminate|reflexivity].
       * apply E; auto. destruct (done_pc (pc x)) eqn:Edx; [rewrite (done_own _ _ _ Htr Edx) in Hd; discriminate|reflexivity].
-    + intros _ Hn. congruence.
 Qed.
 
 Lemma okst_inend s1 c v : okst (IInEnd s1 c false) v = okst (IEnding s1 c) v.
@@ -280,7 +305,7 @@ Lemma R2_procend s o th i s0 (b : bool) s' :
   R2 s' (obs_step cs o (th, if b then EProcEnd i s0 else EProcEnded i s0)).
 Proof.
   intros HR H1 Hk.
-  destruct (procend_effect _ _ _ _ _ _ Hk) as (x & x' & Hx & Hx' & Hfr & Hti & _ & Hnm & _ & _ & _ & Hl & Hv & Htr).
+  destruct (procend_effect _ _ _ _ _ _ Hk) as (x & x' & Hx & Hx' & Hfr & Hti & _ & Hnm & _ & _ & _ & Hl & Hv & Htr & Hsg).
   assert (Hobs : forall j yo', get j (oi (obs_step cs o (th, if b then EProcEnd i s0 else EProcEnded i s0))) = Some yo' ->
             exists yo, get j (oi o) = Some yo /\ o_ended yo' = o_ended yo /\ o_byapi yo' = o_byapi yo /\
               o_endst yo' = if b && N.eqb i j then Some s0 else o_endst yo).
@@ -295,18 +320,19 @@ Proof.
     + now apply after_done.
   - intros j yo' Hyo. destruct (Hobs j yo' Hyo) as (yo & Eyo & E1 & E3 & E2). exists yo. split; [exact Eyo|].
     intros Hne. repeat split; auto. rewrite E2. destruct (N.eqb_spec i j); [congruence|]. now rewrite andb_false_r.
-  - intros xo xo' Hxo Hxo' [A B C D E F]. destruct (Hobs i xo' Hxo') as (yo & Eyo & E1 & E3 & E2).
+  - intros xo xo' Hxo Hxo' [A B C D E F G]. destruct (Hobs i xo' Hxo') as (yo & Eyo & E1 & E3 & E2).
+    assert (Hstg : staged1 s' i = staged1 s i) by (unfold staged1; now rewrite Hsg).
     assert (yo = xo) by congruence. subst yo. rewrite N.eqb_refl, andb_true_r in E2.
     destruct Htr as [E0 T1 T2 T3|E0 T1 T2 T3|c E0 T1 T2 T3|c E0 T1 T2 T3]; subst b; subst.
     + (* stop thread, entry *)
-      constructor; rewrite ?T3, ?Hbeg, ?Hnm, ?Hst, ?E1, ?E3, ?Hl; auto. rewrite E2. intros s1 [= <-]. now left.
-    + constructor; rewrite ?T3, ?Hbeg, ?Hnm, ?Hst, ?E1, ?E2, ?E3, ?Hl; auto.
+      constructor; rewrite ?T3, ?Hbeg, ?Hnm, ?Hst, ?E1, ?E3, ?Hl, ?Hstg; auto. rewrite E2. intros s1 [= <-]. now left.
+    + constructor; rewrite ?T3, ?Hbeg, ?Hnm, ?Hst, ?E1, ?E2, ?E3, ?Hl, ?Hstg; auto.
     + (* own entry *)
-      constructor; rewrite ?T3, ?Hbeg, ?Hnm, ?Hst, ?E1, ?E2, ?E3, ?Hl, ?okst_inend; rewrite ?T2 in *; cbn in *; auto; try discriminate.
+      constructor; rewrite ?T3, ?Hbeg, ?Hnm, ?Hst, ?E1, ?E2, ?E3, ?Hl, ?Hstg, ?okst_inend; rewrite ?T2 in *; cbn in *; auto; try discriminate.
       intros s1 [= <-]. right. apply status_eqb_refl.
     + (* own exit *)
       pose proof (after_done _ T3) as Hd.
-      constructor; rewrite ?Hd, ?Hbeg, ?Hnm, ?Hst, ?E1, ?E2, ?E3, ?Hl; auto; try discriminate.
+      constructor; rewrite ?Hd, ?Hbeg, ?Hnm, ?Hst, ?E1, ?E2, ?E3, ?Hl, ?Hstg; auto; try discriminate.
       * intros s1 Hs1. right. destruct (pc x'); cbn in T3; try discriminate; reflexivity.
       * intros Hp. destruct (pc x'); cbn in T3, Hp; discriminate.
       * intros Hb. specialize (D Hb). rewrite T2 in D. discriminate.
@@ -324,11 +350,12 @@ Proof.
   - rewrite insts_upd_inst, N.eqb_refl, Hx. reflexivity.
   - intros j Hj. rewrite insts_upd_inst. destruct (N.eqb_spec i j); [congruence|reflexivity].
   - apply upd_inst_thinst.
+  - apply upd_inst_stage.
   - intros n. now rewrite vis_of_upd_inst.
   - intros j yo' Hyo. destruct (Hobs j yo' Hyo) as (yo & Eyo & E1 & E2 & E3). eauto.
-  - intros xo xo' Hxo Hxo' [A B C D E F]. destruct (Hobs i xo' Hxo') as (yo & Eyo & E1 & E2 & E3).
+  - intros xo xo' Hxo Hxo' [A B C D E F G]. destruct (Hobs i xo' Hxo') as (yo & Eyo & E1 & E2 & E3).
     assert (yo = xo) by congruence. subst yo.
-    constructor; cbn [pc nm launches]; unfold begun; rewrite ?upd_inst_thinst, ?vis_of_upd_inst, ?E1, ?E2, ?E3; auto.
+    constructor; cbn [pc nm launches]; unfold begun, staged1; rewrite ?upd_inst_thinst, ?upd_inst_stage, ?vis_of_upd_inst, ?E1, ?E2, ?E3; auto.
 Qed.
 
 Lemma R2_vis s o i x : R2 s o -> get i (insts s) = Some x -> exists v, get (nm x) (viss s) = Some v.
@@ -344,7 +371,11 @@ Lemma R2_state s o th i s0 s' :
   R2 s' (obs_step cs o (th, EState i s0)).
 Proof.
   intros HR H1 Hk Hnt.
-  destruct (state_effect _ _ _ _ _ Hk) as (x & x' & Hx & Hx' & Hfr & Hti & _ & Hnm & _ & _ & _ & Hl & Hv & Htr).
+  destruct (state_effect _ _ _ _ _ Hk) as (x & x' & Hx & Hx' & Hfr & Hti & _ & Hnm & _ & _ & _ & Hl & Hv & Htr & Hsg).
+  assert (Hstg : forall j, j <> i -> staged1 s' j = staged1 s j).
+  { intros j Hj. unfold staged1. rewrite Hsg. destruct (status_eqb s0 SPending); [|reflexivity]. rewrite get_set_other by congruence. reflexivity. }
+  assert (Hstgi : s0 <> SPending -> staged1 s' i = staged1 s i).
+  { intros Hj. unfold staged1. rewrite Hsg. destruct (status_eqb s0 SPending) eqn:Ep; [apply status_eqb_eq in Ep; contradiction|reflexivity]. }
   destruct (R2_vis _ _ _ _ HR Hx) as (v & Hvis).
   assert (Hst : forall n, st (vis_of s' n) = if N.eqb (nm x) n then s0 else st (vis_of s n)).
   { intros n. rewrite <- (st_write_status (nm x) s0 s n v Hvis). unfold vis_of. now rewrite Hv. }
@@ -368,7 +399,7 @@ Proof.
       destruct (R1_oi cs _ _ _ _ (r2_r1 _ _ HR) Hx) as (xo & Hxo & Hget & [IA IB IC ID] & _).
       rewrite Hget in Hal, He. rewrite IA in Hal. specialize (IB Hal).
       split; [now rewrite IB|]. repeat split; auto. intros xo2 Hxo2. congruence. }
-    destruct Htr as [c E1 E2 E3|E1 E2 E3|todo E1 E2 E3 E4|E1 E2 E3 E4|c E1 E2 E3 E4|c E1 E2 E3].
+    destruct Htr as [c E1 E2 E3|E1 E2 E3|todo E1 E2 E3 E4 E5|E1 E2 E3 E4|c E1 E2 E3 E4|c E1 E2 E3].
     - destruct (Hstop E2 E3) as [? ?]. split; auto.
     - destruct (Hstop E2 E3) as [? ?]. split; auto.
     - split; [now rewrite E2|]. left. rewrite E2. repeat split; auto. congruence.
@@ -381,7 +412,7 @@ Proof.
   - (* instances *)
     intros j y yo' Hy Hyo. destruct (Hobs j yo' Hyo) as (yo & Eyo & E2 & E3 & E1).
     destruct (N.eqb_spec i j) as [<-|Hne].
-    + assert (y = x') by congruence. subst y. destruct (A _ _ _ Hx Eyo) as [PA PB PC PD PE PF]. cbn [andb] in E1.
+    + assert (y = x') by congruence. subst y. destruct (A _ _ _ Hx Eyo) as [PA PB PC PD PE PF PG]. cbn [andb] in E1.
       assert (Hend : s0 <> STerminating -> opt_eqb status_eqb (o_endst yo) (Some s0) = true -> endst_pc s0 (pc x) = true).
       { intros Hnt0. destruct (o_endst yo) as [s1|] eqn:Es1; cbn; [|discriminate]. intros Hs. apply status_eqb_eq in Hs. subst s1.
         destruct (PB s0 eq_refl); [contradiction|assumption]. }
@@ -389,17 +420,17 @@ Proof.
       * constructor; rewrite ?Hp, ?Hl, ?Hbeg, ?Hnm, ?Hst, ?N.eqb_refl, ?E2, ?E3; auto; try (intros; congruence).
         rewrite E1. destruct (opt_eqb status_eqb (o_endst yo) (Some SPending)) eqn:Eo; [|exact PA].
         specialize (Hend ltac:(discriminate) eq_refl). destruct (pc x); cbn in Hp0, Hend; discriminate.
-      * constructor; rewrite ?Hp', ?Hl, ?Hbeg, ?Hnm, ?Hst, ?N.eqb_refl, ?E2, ?E3; cbn; auto; try discriminate; try congruence.
+      * constructor; rewrite ?Hp', ?Hl, ?Hbeg, ?Hnm, ?Hst, ?N.eqb_refl, ?E2, ?E3; cbn; auto; try discriminate; try congruence; try (intros; congruence).
         -- rewrite E1. destruct (opt_eqb status_eqb (o_endst yo) (Some SRunning)) eqn:Eo.
            ++ specialize (Hend ltac:(discriminate) eq_refl). rewrite Hp in Hend. discriminate.
            ++ intros He. specialize (PA He). rewrite Hp in PA. discriminate.
         -- intros s1 Hs1. destruct (PB s1 Hs1) as [?|Hq]; [now left|]. rewrite Hp in Hq. discriminate.
-      * constructor; rewrite ?Hp', ?Hl, ?Hbeg, ?Hnm, ?Hst, ?N.eqb_refl, ?E2, ?E3; cbn; auto; try discriminate; try congruence.
+      * constructor; rewrite ?Hp', ?Hl, ?Hbeg, ?Hnm, ?Hst, ?N.eqb_refl, ?E2, ?E3; cbn; auto; try discriminate; try congruence; try (intros; congruence).
         -- rewrite E1. destruct (opt_eqb status_eqb (o_endst yo) (Some SRestarting)) eqn:Eo.
            ++ specialize (Hend ltac:(discriminate) eq_refl). rewrite Hp in Hend. discriminate.
            ++ intros He. specialize (PA He). rewrite Hp in PA. discriminate.
         -- intros s1 Hs1. destruct (PB s1 Hs1) as [?|Hq]; [now left|]. rewrite Hp in Hq. discriminate.
-      * constructor; rewrite ?Hp', ?Hl, ?Hbeg, ?Hnm, ?Hst, ?N.eqb_refl, ?E2, ?E3; cbn; auto; try discriminate; try congruence.
+      * constructor; rewrite ?Hp', ?Hl, ?Hbeg, ?Hnm, ?Hst, ?N.eqb_refl, ?E2, ?E3; cbn; auto; try discriminate; try congruence; try (intros; congruence).
         intros s1 Hs1. destruct (PB s1 Hs1) as [?|Hq]; [now left|]. rewrite Hp in Hq. now right.
       * (* a stop execution writes Terminating over the live command *)
         rewrite (Hne yo Eyo) in E1.
@@ -408,7 +439,8 @@ Proof.
         -- intros s1 Hs1. destruct (PB s1 Hs1) as [?|Hq]; [now left|]. rewrite Hp0 in Hq. discriminate.
         -- intros Hb. specialize (PD Hb). rewrite Hp0 in PD. discriminate.
         -- intros _ Hb. specialize (PD Hb). rewrite Hp0 in PD. discriminate.
-    + rewrite (Hfr j) in Hy by congruence. destruct (A _ _ _ Hy Eyo) as [PA PB PC PD PE PF].
+        -- intros _ Hb. specialize (PD Hb). rewrite Hp0 in PD. discriminate.
+    + rewrite (Hfr j) in Hy by congruence. destruct (A _ _ _ Hy Eyo) as [PA PB PC PD PE PF PG].
       assert (Eend : o_ended yo' = o_ended yo).
       { rewrite E1. destruct (N.eqb_spec i j); [congruence|reflexivity]. }
       assert (Hsame : done_pc (pc y) = false -> st (vis_of s' (nm y)) = st (vis_of s (nm y))).
@@ -417,6 +449,7 @@ Proof.
       constructor; rewrite ?Hbeg, ?Eend, ?E2, ?E3; auto.
       * intros Hdy Hb. rewrite (Hsame Hdy). auto.
       * intros Hdy Hb Hby. rewrite (Hsame Hdy). auto.
+      * intros Hdy Hb Hsj. rewrite (Hsame Hdy). apply PG; auto. rewrite <- Hstg; auto.
   - (* uniq *)
     intros j1 j2 y1 y2 Hy1 Hy2 Hn Hd1 Hd2.
     assert (Hdone : done_pc (pc x') = false -> True) by auto.
@@ -444,12 +477,13 @@ Proof.
 Qed.
 
 Lemma begin_effect s th i s' : step_core s th (EBegin i) = Some s' ->
-  exists x, get i (insts s) = Some x /\ get th (thinst s) = None /\ begun s i = false /\
-            s' = s <| thinst := set th i (thinst s) |>.
+  exists x, get i (insts s) = Some x /\ get th (thinst s) = None /\ begun s i = false /\ staged1 s i = true /\
+            s' = s <| thinst := set th i (thinst s) |> <| stage := del i (stage s) |>.
 Proof.
   intros H. cbn in H. break_step H. subst s'. split_andb. exists i0. repeat split.
   - unfold has in *. destruct (get th (thinst s)); [discriminate|reflexivity].
   - now apply forallb_not_begun.
+  - unfold staged1. destruct (get i (stage s)) as [[c [|k]]|]; try discriminate; reflexivity.
 Qed.
 
 Lemma R2_on_status s o i x : R2 s o -> get i (insts s) = Some x ->
@@ -463,24 +497,58 @@ Qed.
 
 Lemma R2_begin s o th i s' :
   R2 s o -> R1 cs s' (obs_step cs o (th, EBegin i)) -> step_core s th (EBegin i) = Some s' ->
-  asm o (th, EBegin i) = true -> R2 s' (obs_step cs o (th, EBegin i)).
+  R2 s' (obs_step cs o (th, EBegin i)).
 Proof.
-  intros HR H1 Hk Hasm. destruct (begin_effect _ _ _ _ Hk) as (x & Hx & Hth & Hnb & ->).
-  cbn in Hasm. apply status_eqb_eq in Hasm. rewrite (R2_on_status _ _ _ _ HR Hx) in Hasm.
-  assert (Hbeg : forall j, begun (s <| thinst := set th i (thinst s) |>) j = begun s j || N.eqb i j).
+  intros HR H1 Hk. destruct (begin_effect _ _ _ _ Hk) as (x & Hx & Hth & Hnb & Hsg & ->).
+  set (s' := s <| thinst := set th i (thinst s) |> <| stage := del i (stage s) |>).
+  assert (Hbeg : forall j, begun s' j = begun s j || N.eqb i j).
   { intros j. unfold begun. cbn. now apply has_swap_set. }
+  assert (Hstg : forall j, j <> i -> staged1 s' j = staged1 s j).
+  { intros j Hj. unfold staged1. cbn. rewrite get_del_other by congruence. reflexivity. }
+  assert (Hvis : forall n, vis_of s' n = vis_of s n) by reflexivity.
   pose proof (obs_step_osame cs o th (EBegin i) eq_refl) as HO.
   destruct HR as [_ A U N B]. constructor; auto.
-  - intros j y yo' Hy Hyo. cbn in Hy. destruct (osame_inv _ _ _ _ HO Hyo) as (yo & Eyo & (_ & _ & _ & _ & E2 & E1 & E3)).
-    destruct (A _ _ _ Hy Eyo) as [PA PB PC PD PE PF].
-    constructor; rewrite ?Hbeg, ?E1, ?E2, ?E3; cbn [pc nm vis_of viss]; auto.
+  - intros j y yo' Hy Hyo. change (get j (insts s) = Some y) in Hy.
+    destruct (osame_inv _ _ _ _ HO Hyo) as (yo & Eyo & (_ & _ & _ & _ & E2 & E1 & E3)).
+    destruct (A _ _ _ Hy Eyo) as [PA PB PC PD PE PF PG].
+    constructor; rewrite ?Hbeg, ?Hvis, ?E1, ?E2, ?E3; auto.
     + intros Hb. apply orb_false_iff in Hb. tauto.
     + intros Hd Hb. destruct (N.eqb_spec i j) as [<-|Hne].
-      * assert (y = x) by congruence. subst y. specialize (PD Hnb). destruct (pc x); try discriminate. cbn.
-        change (vis_of (s <| thinst := set th i (thinst s) |>) (nm x)) with (vis_of s (nm x)). rewrite Hasm. reflexivity.
+      * assert (y = x) by congruence. subst y. pose proof (PD Hnb) as Hp0. rewrite (PG Hd Hnb Hsg).
+        destruct (pc x); try discriminate. reflexivity.
       * rewrite orb_false_r in Hb. apply PE; auto.
     + intros Hd Hb. apply orb_false_iff in Hb. destruct Hb as [Hb _]. apply PF; auto.
-  - intros j Hj. cbn in Hj. rewrite Hbeg, (B j Hj). cbn. destruct (N.eqb_spec i j); [congruence|reflexivity].
+    + intros Hd Hb Hs. apply orb_false_iff in Hb. destruct Hb as [Hb Hne]. apply N.eqb_neq in Hne.
+      apply PG; auto. rewrite <- Hstg; auto.
+  - intros j Hj. change (get j (insts s) = None) in Hj. rewrite Hbeg, (B j Hj). cbn. destruct (N.eqb_spec i j); [congruence|reflexivity].
+Qed.
+
+(* threads: a thread on its way to runProcess from StartProcess/RestartProcess is known to the observer as an
+   API call other than Run; the names Run() still has to spawn are not disabled *)
+Definition TI (s : sys) (o : obs) : Prop := forall th,
+  (chain (apc_of s th) = true -> api_thread o th = true) /\
+  (forall todo, apc_of s th = ARun todo -> forall n, memN n todo = true -> exists c, get n cs = Some c /\ deferred c = false).
+
+Lemma TI_init ord : TI (init cs ord) (obs0 cs).
+Proof. intros th. split; [discriminate|]. intros todo H. discriminate H. Qed.
+
+Lemma TI_step s o th e s' : wf_confs cs = true -> confs s = cs -> TI s o -> step s (th, e) = Some s' ->
+  TI s' (obs_step cs o (th, e)).
+Proof.
+  intros Hwf Hcs HT H. destruct (step_apc _ _ _ _ H) as [A B]. intros th'.
+  unfold api_thread. rewrite obs_step_o_api.
+  destruct (N.eqb_spec th' th) as [->|Hne].
+  - destruct (HT th) as [T1 T2]. unfold api_thread in T1.
+    destruct e; cbn [api_rel] in B;
+    try (progress unfold weak_rel in B; destruct B as [B1 B2]; split; [intros Hc; auto|intros todo' Hq n9 Hn9; destruct (B2 todo' Hq) as (todo9 & Ea & Hsub); eauto]).
+    + (* EApiBegin *) rewrite B, get_set_same. destruct op; cbn; split; try discriminate; auto.
+      intros todo [= <-] n Hn. rewrite <- Hcs in Hwf. destruct (runnable_not_deferred s n Hwf Hn) as (c & Hc & Hd).
+      rewrite Hcs in Hc. eauto.
+    + (* EApiReturn *) rewrite B. split; discriminate.
+  - rewrite (A th' Hne). destruct (HT th') as [T1 T2]. unfold api_thread in T1. split; [|exact T2].
+    intros Hc. specialize (T1 Hc). destruct e; try exact T1.
+    + rewrite get_set_other by congruence. exact T1.
+    + rewrite get_del_other by congruence. exact T1.
 Qed.
 
 Lemma w_dup_newinst o th i n :
@@ -489,11 +557,11 @@ Lemma w_dup_newinst o th i n :
 Proof. reflexivity. Qed.
 
 Lemma R2_newinst s o th i n s' :
-  R2 s o -> R1 cs s' (obs_step cs o (th, ENewInst i n)) -> step_reg s th (ENewInst i n) = Some s' ->
+  R2 s o -> TI s o -> R1 cs s' (obs_step cs o (th, ENewInst i n)) -> step_reg s th (ENewInst i n) = Some s' ->
   asm o (th, ENewInst i n) = true -> w_dup (obs_step cs o (th, ENewInst i n)) = false ->
   R2 s' (obs_step cs o (th, ENewInst i n)).
 Proof.
-  intros HR H1 Hk Hasm Hw. destruct (newinst_effect _ _ _ _ _ Hk) as (c & Hc & Hi & ->).
+  intros HR HT H1 Hk Hasm Hw. destruct (newinst_effect _ _ _ _ _ Hk) as (c & Hc & Hi & Hcr & ->).
   rewrite w_dup_newinst in Hw. apply orb_false_iff in Hw. destruct Hw as [_ Hdup].
   destruct (r2_r1 _ _ HR) as [HRc _]. rewrite (rc_confs _ _ _ HRc) in Hc.
   (* every earlier instance of the name has ended *)
@@ -504,33 +572,47 @@ Proof.
     - eapply (p_ended _ _ _ _ (r2_inst _ _ HR _ _ _ Hy Hyo)); eauto.
     - exfalso. assert (existsb (fun y => N.eqb (o_nm y) n && negb (o_ended y)) (vals (oi o)) = true); [|congruence].
       apply existsb_exists. exists yo. split; [exact Hin|]. rewrite Hno, Hn, N.eqb_refl, Ee. reflexivity. }
-  assert (Hbeg : forall j, begun (s <| insts := set i (new_inst n c) (insts s) |>) j = begun s j) by reflexivity.
-  assert (Hst : forall m, vis_of (s <| insts := set i (new_inst n c) (insts s) |>) m = vis_of s m) by reflexivity.
+  set (s' := set_stage th i 0 (s <| insts := set i (new_inst n c) (insts s) |>)) in *.
+  assert (Hins : insts s' = set i (new_inst n c) (insts s)) by reflexivity.
+  assert (Hbeg : forall j, begun s' j = begun s j) by reflexivity.
+  assert (Hst : forall m, vis_of s' m = vis_of s m) by reflexivity.
+  assert (Hstg : forall j, staged1 s' j = if N.eqb i j then false else staged1 s j).
+  { intros j. unfold staged1. change (stage s') with (set i (th, 0) (stage s)). rewrite get_set. destruct (N.eqb i j); reflexivity. }
   destruct HR as [_ A U N B]. constructor; auto.
-  - intros j y yo' Hy Hyo. apply obs_newinst_get in Hyo. cbn in Hy. rewrite get_set in Hy.
+  - intros j y yo' Hy Hyo. apply obs_newinst_get in Hyo. rewrite Hins, get_set in Hy.
     destruct (N.eqb_spec i j) as [<-|Hne].
     + injection Hy as <-. destruct Hyo as (_ & _ & _ & _ & E2 & E1 & E3).
-      constructor; rewrite ?Hbeg, ?Hst, ?E1, ?E2, ?E3, ?(B i Hi); cbn; auto; try discriminate.
-      intros _ _ Hapi. cbn in Hasm. rewrite Hapi in Hasm. cbn in Hasm. apply andb_true_iff in Hasm. destruct Hasm as [Hnone Hdef].
-      unfold conf_of in Hdef. rewrite Hc in Hdef. apply negb_true_iff in Hdef.
+      constructor; rewrite ?Hbeg, ?Hst, ?Hstg, ?N.eqb_refl, ?E1, ?E2, ?E3, ?(B i Hi); cbn; auto; try discriminate.
+      intros _ _ Hapi. cbn in Hasm. rewrite Hapi in Hasm. cbn in Hasm. rename Hasm into Hnone.
+      assert (Hdef : deferred c = false).
+      { destruct (HT th) as [T1 T2]. unfold creates in Hcr. change (apc (get_thread s th)) with (apc_of s th) in Hcr.
+        destruct (apc_of s th) eqn:Ea; try discriminate Hcr.
+        - destruct (T2 todo eq_refl n Hcr) as (c' & Hc' & Hd). congruence.
+        - specialize (T1 eq_refl). congruence.
+        - specialize (T1 eq_refl). congruence. }
       rewrite (N n c Hc); [now rewrite Hdef|].
       intros j y Hy Hn. destruct (rc_inst _ _ _ HRc j y Hy) as (yo & Hyo & Hno & _).
       rewrite forallb_forall in Hnone. specialize (Hnone yo (get_in_vals _ _ _ Hyo)).
       rewrite Hno, Hn, N.eqb_refl in Hnone. discriminate.
     + destruct Hyo as (yo & Eyo & (_ & _ & _ & _ & E2 & E1 & E3)).
-      destruct (A _ _ _ Hy Eyo) as [PA PB PC PD PE PF]. constructor; rewrite ?Hbeg, ?Hst, ?E1, ?E2, ?E3; auto.
-  - intros j1 j2 y1 y2 Hy1 Hy2 Hn Hd1 Hd2. cbn in Hy1, Hy2. rewrite get_set in Hy1, Hy2.
+      destruct (A _ _ _ Hy Eyo) as [PA PB PC PD PE PF PG]. constructor; rewrite ?Hbeg, ?Hst, ?Hstg, ?E1, ?E2, ?E3; auto.
+      destruct (N.eqb_spec i j); [contradiction|exact PG].
+  - intros j1 j2 y1 y2 Hy1 Hy2 Hn Hd1 Hd2. rewrite Hins, get_set in Hy1, Hy2.
     destruct (N.eqb_spec i j1) as [<-|N1]; destruct (N.eqb_spec i j2) as [<-|N2]; auto.
     + injection Hy1 as <-. cbn in Hn. rewrite (Hold j2 y2 Hy2 (eq_sym Hn)) in Hd2. discriminate.
     + injection Hy2 as <-. cbn in Hn. rewrite (Hold j1 y1 Hy1 Hn) in Hd1. discriminate.
     + eapply U; eauto.
   - intros m c0 Hc0 Hno. rewrite Hst. apply (N m c0 Hc0). intros j y Hy.
-    apply (Hno j y). cbn. rewrite get_set. destruct (N.eqb_spec i j) as [<-|]; [congruence|exact Hy].
-  - intros j Hj. cbn in Hj. rewrite get_set in Hj. destruct (N.eqb_spec i j); [discriminate|]. rewrite Hbeg. auto.
+    apply (Hno j y). rewrite Hins, get_set. destruct (N.eqb_spec i j) as [<-|]; [congruence|exact Hy].
+  - intros j Hj. rewrite Hins, get_set in Hj. destruct (N.eqb_spec i j); [discriminate|]. rewrite Hbeg. auto.
 Qed.
 
 Lemma R2_flush s o th : R2 s o -> R2 (flush th s) o.
-Proof. intros HR. eapply R2_frame; eauto using msame_flush, osame_refl. apply R1_flush. apply (r2_r1 _ _ HR). Qed.
+Proof.
+  intros HR. eapply R2_frame; eauto using msame_flush, osame_refl.
+  - apply R1_flush. apply (r2_r1 _ _ HR).
+  - apply stage_le_eq, flush_stage.
+Qed.
 
 Lemma asm_state o th i s0 : asm o (th, EState i s0) = true -> s0 = STerminating ->
   is_running_status (r_status (on_get o (o_nm (oi_get o i)))) = true /\ o_alive (oi_get o i) = true /\
@@ -540,28 +622,31 @@ Proof.
   apply negb_true_iff in H3. auto.
 Qed.
 
-Lemma R2_step s o th e s' : R2 s o -> step s (th, e) = Some s' -> asm o (th, e) = true ->
+Lemma TI_flush s o th : TI s o -> TI (flush th s) o.
+Proof. intros HT th'. rewrite flush_apc. apply HT. Qed.
+
+Lemma R2_step s o th e s' : R2 s o -> TI s o -> step s (th, e) = Some s' -> asm o (th, e) = true ->
   w_dup (obs_step cs o (th, e)) = false -> R2 s' (obs_step cs o (th, e)).
 Proof.
-  intros HR H Hasm Hw.
+  intros HR HT H Hasm Hw. apply (TI_flush _ _ th) in HT.
   assert (H1 : R1 cs s' (obs_step cs o (th, e))) by (eapply R1_step; eauto; apply (r2_r1 _ _ HR)).
   apply (R2_flush _ _ th) in HR. unfold step in H. cbn [fst snd] in H.
   set (s0 := flush th s) in *. clearbody s0. clear s.
   destruct (step_core_kind _ _ _ _ H) as [? ?|i x ? ? ? ? ? ?|Hk|Hk|Hk|i st0 ? Hk|i st0 b ? Hk|Hk|i ? Hk|Hk|Hk]; subst.
-  - eapply R2_frame; eauto using msame_refl, obs_step_osame.
+  - eapply R2_frame; eauto using msame_refl, obs_step_osame. apply stage_le_eq; reflexivity.
   - eapply R2_begin; eauto.
   - destruct (mexc e) eqn:Hex.
     + destruct (reg_mexc _ _ _ _ Hk Hex) as (i & n & ->). eapply R2_newinst; eauto.
-    + eapply R2_frame; [eassumption|eassumption|eapply step_reg_msame; eauto|apply obs_step_osame; eapply reg_oexc; eauto].
-  - eapply R2_frame; [eassumption|eassumption|eapply step_api_msame; eauto|apply obs_step_osame; eapply api_oexc; eauto].
-  - eapply R2_frame; [eassumption|eassumption|eapply step_stop_msame; eauto|apply obs_step_osame; eapply stop_oexc; eauto].
+    + eapply R2_frame; [eassumption|eassumption|eapply step_reg_msame; eauto|eapply step_reg_stage; eauto|apply obs_step_osame; eapply reg_oexc; eauto].
+  - eapply R2_frame; [eassumption|eassumption|eapply step_api_msame; eauto|eapply step_api_stage; eauto|apply obs_step_osame; eapply api_oexc; eauto].
+  - eapply R2_frame; [eassumption|eassumption|eapply step_stop_msame; eauto|eapply step_stop_stage; eauto|apply obs_step_osame; eapply stop_oexc; eauto].
   - eapply R2_state; eauto. intros Hs. destruct (asm_state _ _ _ _ Hasm Hs) as (_ & ? & ?). auto.
   - eapply R2_procend; eauto.
-  - eapply R2_frame; [eassumption|eassumption|eapply step_shutdown_msame; eauto|apply obs_step_osame; eapply shutdown_oexc; eauto].
-  - eapply R2_frame; [eassumption|eassumption|eapply step_ordered_msame; eauto|apply obs_step_osame; reflexivity].
+  - eapply R2_frame; [eassumption|eassumption|eapply step_shutdown_msame; eauto|eapply step_shutdown_stage; eauto|apply obs_step_osame; eapply shutdown_oexc; eauto].
+  - eapply R2_frame; [eassumption|eassumption|eapply step_ordered_msame; eauto|eapply step_ordered_stage; eauto|apply obs_step_osame; reflexivity].
   - destruct (mexc e) eqn:Hex.
     + destruct (env_mexc _ _ _ _ Hk Hex) as (i & c & ->). eapply R2_cmdexit; eauto.
-    + eapply R2_frame; [eassumption|eassumption|eapply step_env_msame; eauto|apply obs_step_osame; eapply env_oexc; eauto].
+    + eapply R2_frame; [eassumption|eassumption|eapply step_env_msame; eauto|eapply step_env_stage; eauto|apply obs_step_osame; eapply env_oexc; eauto].
   - eapply R2_own; eauto.
 Qed.
 
@@ -571,15 +656,15 @@ Proof.
   intros HR H Hasm. destruct e; try reflexivity.
   apply (R2_flush _ _ th) in HR. unfold step in H. cbn [fst snd] in H.
   change (step_state (flush th s) th i s0 = Some s') in H. set (sf := flush th s) in *. clearbody sf.
-  destruct (state_effect _ _ _ _ _ H) as (x & x' & Hx & _ & _ & _ & _ & _ & _ & _ & _ & _ & _ & Htr).
+  destruct (state_effect _ _ _ _ _ H) as (x & x' & Hx & _ & _ & _ & _ & _ & _ & _ & _ & _ & _ & Htr & _).
   pose proof (R2_on_status _ _ _ _ HR Hx) as Hprev.
   destruct (r2_r1 _ _ HR) as [HRc _].
   destruct (rc_inst _ _ _ HRc i x Hx) as (xo & Hxo & Hn & Hc & Hla).
-  destruct (r2_inst _ _ HR _ _ _ Hx Hxo) as [PA PB PC PD PE PF].
+  destruct (r2_inst _ _ HR _ _ _ Hx Hxo) as [PA PB PC PD PE PF PG].
   assert (Hterm : s0 = STerminating -> is_running_status (st (vis_of sf (nm x))) = true).
   { intros Hs. destruct (asm_state _ _ _ _ Hasm Hs) as (Hr & _). now rewrite Hprev in Hr. }
   unfold mon_legal. cbn [snd]. rewrite Hprev. unfold oi_get. rewrite Hxo.
-  destruct Htr as [c E1 E2 E3|E1 E2 E3|todo E1 E2 E3 E4|E1 E2 E3 E4|c E1 E2 E3 E4|c E1 E2 E3].
+  destruct Htr as [c E1 E2 E3|E1 E2 E3|todo E1 E2 E3 E4 E5|E1 E2 E3 E4|c E1 E2 E3 E4|c E1 E2 E3].
   - specialize (Hterm E2). subst s0. destruct (st (vis_of sf (nm x))); try discriminate; reflexivity.
   - specialize (Hterm E2). subst s0. destruct (st (vis_of sf (nm x))); try discriminate; reflexivity.
   - (* initial Pending *) subst s0. change (begun sf i = false) in E4.
@@ -605,7 +690,7 @@ Proof.
   pose proof (R2_on_status _ _ _ _ HR Hx) as Hprev.
   destruct (r2_r1 _ _ HR) as [HRc _].
   destruct (rc_inst _ _ _ HRc i x Hx) as (xo & Hxo & _).
-  destruct (r2_inst _ _ HR _ _ _ Hx Hxo) as [PA PB PC PD PE PF].
+  destruct (r2_inst _ _ HR _ _ _ Hx Hxo) as [PA PB PC PD PE PF PG].
   unfold mon_launch. cbn [fst snd ev_inst]. rewrite <- (rc_th _ _ _ HRc), Hth, Hprev.
   assert (Hb : begun sf i = true) by (eapply begun_own; eauto).
   cbn in Htr. destruct (pc x) eqn:Ep; try discriminate. specialize (PE eq_refl Hb). cbn in PE.
@@ -615,29 +700,31 @@ Qed.
 Definition mon_ab (o : obs) (te : tid * event) : bool := mon_legal o te && mon_launch o te.
 
 Theorem C09_legal_launch_holds ord evs s :
+  wf_confs cs = true ->
   accept (init cs ord) evs = Some s -> holds' cs asm evs = true -> w_dup (final_obs cs evs) = false ->
   holds' cs mon_legal evs = true /\ holds' cs mon_launch evs = true.
 Proof.
-  intros Hacc HA HW. apply andb_true_iff. rewrite <- holds'_and.
-  eapply (sim2_holds cs ord (fun s o => w_dup o = true \/ R2 s o) mon_ab asm w_dup); eauto.
-  - right. apply R2_init.
+  intros Hwf Hacc HA HW. apply andb_true_iff. rewrite <- holds'_and.
+  eapply (sim2_holds cs ord (fun s o => w_dup o = true \/ (R2 s o /\ TI s o)) mon_ab asm w_dup); eauto.
+  - right. split; [apply R2_init|apply TI_init].
   - intros s1 o [th e] s1' HR Hs Ha. destruct (w_dup (obs_step cs o (th, e))) eqn:Ew; [auto|].
-    destruct HR as [Hd|HR]; [rewrite (w_dup_mono cs o (th, e) Hd) in Ew; discriminate|].
-    split; [right; eapply R2_step; eauto|]. left. unfold mon_ab.
+    destruct HR as [Hd|[HR HT]]; [rewrite (w_dup_mono cs o (th, e) Hd) in Ew; discriminate|].
+    split; [right; split; [eapply R2_step; eauto|eapply TI_step; eauto; apply (rc_confs _ _ _ (proj1 (r2_r1 _ _ HR)))]|]. left. unfold mon_ab.
     rewrite (R2_mon_legal _ _ _ _ _ HR Hs Ha), (R2_mon_launch _ _ _ _ _ HR Hs). reflexivity.
   - apply w_dup_mono.
 Qed.
 End RelC09b.
 
 (* ---- the whole monitor ------------------------------------------------------------------------------------ *)
-Definition C09_assumptions (cs : amap pconf) (evs : list (tid * event)) : bool := holds' cs (asm cs) evs.
+Definition C09_assumptions (cs : amap pconf) (evs : list (tid * event)) : bool := holds' cs asm evs.
 
 Theorem C09_main_partial_lemma cs ord evs s :
+  wf_confs cs = true ->
   accept (init cs ord) evs = Some s -> C09_assumptions cs evs = true -> w_dup (final_obs cs evs) = false ->
   holds_C09 cs evs = true.
 Proof.
-  intros Hacc HA HW. rewrite holds_C09_split.
-  destruct (C09_legal_launch_holds cs ord evs s Hacc HA HW) as [H1 H2].
+  intros Hwf Hacc HA HW. rewrite holds_C09_split.
+  destruct (C09_legal_launch_holds cs ord evs s Hwf Hacc HA HW) as [H1 H2].
   rewrite H1, H2, (C09_term_holds cs ord evs s Hacc), (C09_code_holds cs ord evs s Hacc). reflexivity.
 Qed.
 
